@@ -536,3 +536,134 @@ Qed.
 Definition null_witness : state := mkState [(bs "k", bs "null")] [] [] [] [] 0 0 0 0 None.
 Lemma null_data_not_roundtrip : reload_ok (null_witness, reload 0 (persist 0 null_witness)) = false.
 Proof. vm_compute. reflexivity. Qed.
+
+(* ================================================================== 4. the notices are a map: keys are unique and survive a reload *)
+(* the map key of a notice: (user id - None = public -, type, key); noticeKey{hasUserID, userID, noticeType, key} in Go *)
+Definition nkey (n : notice) : option N * bytes * bytes := (n_uid n, n_type n, n_key n).
+Definition keys_unique (s : state) : Prop := NoDup (map nkey (s_notices s)).
+
+Lemma beq_eq : forall a b, beq a b = true -> a = b.
+Proof.
+  induction a as [|x a IH]; intros [|y b] H; simpl in H; try discriminate; [reflexivity|].
+  apply andb_true_iff in H. destruct H as [H1 H2]. apply N.eqb_eq in H1. subst. f_equal. apply IH. assumption.
+Qed.
+Lemma opt_N_eqb_eq : forall a b, opt_N_eqb a b = true -> a = b.
+Proof. intros [x|] [y|] H; simpl in H; try discriminate; [apply N.eqb_eq in H; subst|]; reflexivity. Qed.
+
+Lemma same_nkey_eq : forall u t k n, same_nkey u t k n = true -> nkey n = (u, t, k).
+Proof.
+  intros u t k n H. unfold same_nkey in H. apply andb_true_iff in H. destruct H as [H H3]. apply andb_true_iff in H. destruct H as [H1 H2].
+  apply opt_N_eqb_eq in H1. apply beq_eq in H2. apply beq_eq in H3. unfold nkey. congruence.
+Qed.
+Lemma same_nkey_self : forall n, same_nkey (n_uid n) (n_type n) (n_key n) n = true.
+Proof. intros n. unfold same_nkey. rewrite opt_N_eqb_refl, !beq_refl. reflexivity. Qed.
+
+Lemma NoDup_map_filter : forall A B (f : A -> B) (p : A -> bool) l, NoDup (map f l) -> NoDup (map f (filter p l)).
+Proof.
+  intros A B f p l. induction l as [|x l IH]; intros H; simpl; [constructor|]. simpl in H. inversion H as [|? ? Hx Hl]; subst.
+  destruct (p x); simpl; [constructor|]; try (apply IH; assumption).
+  intro Hin. apply Hx. apply in_map_iff in Hin. destruct Hin as [y [E Hy]]. apply filter_In in Hy. apply in_map_iff. exists y. tauto.
+Qed.
+
+Lemma NoDup_snoc : forall A (l : list A) x, NoDup l -> ~ In x l -> NoDup (l ++ [x]).
+Proof.
+  intros A l x H Hx. induction H as [|y l Hy Hl IH]; simpl; [constructor; [intros []|constructor]|].
+  constructor.
+  - intro Hin. apply in_app_or in Hin. destruct Hin as [Hin|[Hin|[]]]; [contradiction|]. subst. apply Hx. left; reflexivity.
+  - apply IH. intro Hin. apply Hx. right. assumption.
+Qed.
+
+Lemma keys_add_notice : forall uid ty key data rep ex now s s' id fresh,
+  add_notice uid ty key data rep ex now s = (s', id, fresh) -> keys_unique s -> keys_unique s'.
+Proof.
+  intros uid ty key data rep ex now s s' id fresh H K. unfold add_notice in H. unfold keys_unique in *.
+  destruct (negb (validate_notice ty key)). { inversion H; subst; assumption. }
+  destruct (match ex with Some t => (t, s_lnts s) | None => _ end) as [now' lnts'].
+  destruct (find (same_nkey uid ty key) (s_notices s)) as [old|] eqn:Hf; inversion H; subst; simpl.
+  - (* recurrence: the entry is replaced by one with the same key *)
+    apply find_some in Hf. destruct Hf as [_ Ho]. apply same_nkey_eq in Ho.
+    assert (E : map nkey (map (fun x => if same_nkey uid ty key x
+               then mkNotice (n_id old) (n_uid old) (n_type old) (n_key old) (n_first old) now'
+                      (if (rep =? 0)%Z || (n_lastrep old + rep <? now')%Z then now' else n_lastrep old) (n_occ old + 1) data rep (n_expire old)
+               else x) (s_notices s)) = map nkey (s_notices s)).
+    { rewrite map_map. apply map_ext_in. intros x Hx. destruct (same_nkey uid ty key x) eqn:Ex; [|reflexivity].
+      apply same_nkey_eq in Ex. unfold nkey in *. simpl. congruence. }
+    rewrite E. assumption.
+  - (* first occurrence: a new key *)
+    rewrite map_app. simpl. apply NoDup_snoc; [assumption|]. intro Hin. apply in_map_iff in Hin. destruct Hin as [x [Ex Hx]].
+    pose proof (find_none _ _ Hf x Hx) as Hn. unfold nkey in Ex. simpl in Ex. inversion Ex; subst.
+    rewrite same_nkey_self in Hn. discriminate.
+Qed.
+
+Lemma keys_repeat_notice : forall n key kd now s s' ids, repeat_notice n key kd now s = (s', ids) -> keys_unique s -> keys_unique s'.
+Proof.
+  induction n as [|n IH]; intros key kd now s s' ids H K; simpl in H; [inversion H; subst; assumption|].
+  destruct (add_notice None change_update_b key [(bs "kind", kd)] 0 None now s) as [[s1 nid] fresh] eqn:Ha.
+  destruct (repeat_notice n key kd now s1) as [s2 ids2] eqn:Hr. inversion H; subst.
+  eapply IH; [eassumption|]. eapply keys_add_notice; eassumption.
+Qed.
+
+Lemma keys_apply_effects : forall c e now s s' ids, apply_effects c e now s = (s', ids) -> keys_unique s -> keys_unique s'.
+Proof.
+  intros c e now s s' ids H K. unfold apply_effects in H. destruct (find_change c s) as [ch|]; [|inversion H; subst; assumption].
+  match type of H with context [repeat_notice ?n ?k ?kd ?nw ?s1] => destruct (repeat_notice n k kd nw s1) as [s2 ids2] eqn:Hr end.
+  inversion H; subst. unfold keys_unique. simpl. eapply keys_repeat_notice in Hr; [exact Hr|].
+  destruct (e_chg_ready e); exact K.
+Qed.
+
+Lemma keys_step : forall s o s' iss, step s o = (s', iss) -> keys_unique s -> keys_unique s'.
+Proof.
+  intros s o s' iss H K. destruct o; simpl in H.
+  - unfold new_change in H.
+    match type of H with context [add_notice ?a ?b ?c ?d ?e ?f ?g ?s1] =>
+      destruct (add_notice a b c d e f g s1) as [[s2 nid] fresh] eqn:Ha end.
+    inversion H; subst. eapply keys_add_notice; [eassumption|]. exact K.
+  - inversion H; subst. exact K.
+  - inversion H; subst. exact K.
+  - inversion H; subst. unfold add_task. destruct (find_task t s) as [tk|]; [destruct (t_change tk =? 0)|]; exact K.
+  - inversion H; subst. exact K.
+  - inversion H; subst. exact K.
+  - inversion H; subst. unfold set_data. destruct (target =? 0); [|destruct (target =? 1)]; exact K.
+  - inversion H; subst. unfold del_data. destruct (target =? 0); [|destruct (target =? 1)]; exact K.
+  - inversion H; subst. exact K.
+  - inversion H; subst. exact K.
+  - inversion H; subst. exact K.
+  - inversion H; subst. exact K.
+  - destruct (task_set_status t new now e s) as [s1 ids] eqn:Ht. inversion H; subst.
+    unfold task_set_status in Ht. destruct (find_task t s) as [x|]; [|inversion Ht; subst; exact K].
+    destruct (_ && _); [inversion Ht; subst; exact K|]. destruct (t_status x =? new); [inversion Ht; subst; exact K|].
+    eapply keys_apply_effects; [eassumption | exact K].
+  - destruct (task_set_to_wait t waited now e s) as [s1 ids] eqn:Ht. inversion H; subst.
+    unfold task_set_to_wait in Ht. destruct (find_task t s) as [x|]; [|inversion Ht; subst; exact K].
+    destruct (t_status x =? st_abort); [inversion Ht; subst; exact K|].
+    destruct (t_status x =? st_wait); [inversion Ht; subst; exact K|].
+    eapply keys_apply_effects; [eassumption | exact K].
+  - destruct (change_set_status c new now e s) as [s1 ids] eqn:Ht. inversion H; subst.
+    unfold change_set_status in Ht. eapply keys_apply_effects; [eassumption | exact K].
+  - destruct (add_notice uid ty key data repeat explicit now s) as [[s1 id] fresh] eqn:Ha. inversion H; subst.
+    eapply keys_add_notice; eassumption.
+  - inversion H; subst. unfold add_warning. destruct (existsb _ _); exact K.
+  - inversion H; subst. exact K.
+  - inversion H; subst. unfold keys_unique. simpl. apply NoDup_map_filter. exact K.
+  - inversion H; subst. unfold keys_unique. simpl. apply NoDup_map_filter. rewrite (map_map marshal_notice unmarshal_notice).
+    rewrite (map_ext (fun x => unmarshal_notice (marshal_notice x)) (fun n => n)) by (intros; apply notice_codec_id).
+    rewrite map_id. apply NoDup_map_filter. exact K.
+Qed.
+
+(* over every op sequence (reloads and prunes anywhere) no two notices of the state have the same map key *)
+Theorem keys_unique_run : forall ops s s' iss befores, run s ops = (s', iss, befores) -> keys_unique s -> keys_unique s'.
+Proof.
+  induction ops as [|o ops IH]; intros s s' iss befores H K; simpl in H; [inversion H; subst; assumption|].
+  destruct (step s o) as [s1 i1] eqn:Hs. destruct (run s1 ops) as [[s2 i2] b2] eqn:Hr. inversion H; subst.
+  eapply IH; [eassumption|]. eapply keys_step; eassumption.
+Qed.
+
+(* a reload keeps the map keys: the reloaded notices carry exactly the keys of the unexpired notices that were saved, in
+   the same order, and stay pairwise distinct (so a later occurrence of (user, type, key) finds its notice) *)
+Theorem roundtrip_notice_keys : forall n1 n2 s, (n1 <= n2)%Z ->
+  map nkey (s_notices (reload n2 (persist n1 s))) = map nkey (filter (fun n => negb (notice_expired n2 n)) (s_notices s)) /\
+  (keys_unique s -> keys_unique (reload n2 (persist n1 s))).
+Proof.
+  intros n1 n2 s H. rewrite (reload_persist n1 n2 s H). unfold normalize, keys_unique. simpl. split; [reflexivity|].
+  apply NoDup_map_filter.
+Qed.
